@@ -7,8 +7,9 @@
    bool, void, immutable / mutable locals, assignment to places (x, p.f, p[i]),
    if/else, while / loop with labelled break / continue, (labelled) blocks with
    values, functions and calls (recursion, fuel bounded), return, arrays with
-   run-time bounds-checked indexing (fault), structs, printing of integers and
-   booleans (output events).  Comptime parameters of generic functions
+   run-time bounds-checked indexing (fault), structs, defer, enums with payloads,
+   optionals, error unions (one value form [VSum]), switch with argument and default arm,
+   #is_variant, #unwrap (fault), .try, printing of integers and booleans (output events).  Comptime parameters of generic functions
    (type parameters [TVar], integer parameters [ECParam]) are part of the syntax
    and of the interpreter (environment [senv]); the type checker only accepts
    non-generic code, C16 (Model/Generics.v) relates both.
@@ -40,7 +41,10 @@ Inductive ty :=
 | TVoid
 | TArr (n : nat) (t : ty)
 | TStruct (id : nat) (fs : list ty)
-| TVar (n : nat).                    (* comptime type parameter *)
+| TVar (n : nat)                     (* comptime type parameter *)
+| TEnum (id : nat) (vs : list ty)    (* payload type of every variant (TVoid = none) *)
+| TOpt (t : ty)                      (* ?t : variant 0 = nil, variant 1 = t *)
+| TErr (e t : ty).                   (* e!t : variant 0 = error e, variant 1 = t *)
 
 Definition usize : ity := mkI false WPtr.
 
@@ -69,7 +73,19 @@ Fixpoint ty_eqb (a b : ty) {struct a} : bool :=
   | TArr n t, TArr m u => Nat.eqb n m && ty_eqb t u
   | TStruct i fs, TStruct j gs => Nat.eqb i j && list_eqb ty_eqb fs gs
   | TVar n, TVar m => Nat.eqb n m
+  | TEnum i fs, TEnum j gs => Nat.eqb i j && list_eqb ty_eqb fs gs
+  | TOpt t, TOpt u => ty_eqb t u
+  | TErr e t, TErr f u => ty_eqb e f && ty_eqb t u
   | _, _ => false
+  end.
+
+(* the sum types: enums, optionals and error unions, as lists of payload types *)
+Definition variants (t : ty) : option (list ty) :=
+  match t with
+  | TEnum _ vs => Some vs
+  | TOpt u => Some [TVoid; u]
+  | TErr e u => Some [e; u]
+  | _ => None
   end.
 
 (* ----------------------------------------------------------------- syntax *)
@@ -106,7 +122,14 @@ Inductive expr :=
 | EField (a : expr) (k : nat)
 | ELet (x : nat) (t : ty) (m : bool) (e : expr)   (* only as a block statement *)
 | EAssign (lhs rhs : expr)
-| EPrint (a : expr).
+| EPrint (a : expr)
+| EDefer (e : expr)                                (* only as a block statement *)
+| EInject (t : ty) (k : nat) (e : expr)            (* value of sum type t: variant k with payload e *)
+| ESwitch (t : ty) (e : expr) (x : nat) (arms : list expr) (dflt : option expr)
+      (* arms for variants 0.. in order, x bound to the payload; dflt covers the rest *)
+| EIsVariant (e : expr) (k : nat)
+| EUnwrap (e : expr) (k : nat)                     (* fault when the variant differs *)
+| ETry (e : expr).                                 (* .try : return nil / the error from the function *)
 
 Record fundef := mkFun {
   f_tparams : nat;                  (* number of comptime type parameters *)
@@ -123,7 +146,8 @@ Inductive value :=
 | VBool (b : bool)
 | VUnit
 | VArr (vs : list value)
-| VStruct (vs : list value).
+| VStruct (vs : list value)
+| VSum (k : nat) (v : value).
 
 Inductive event := EvInt (i : ity) (z : Z) | EvBool (b : bool).
 
@@ -147,6 +171,7 @@ Inductive res :=
 Definition evaluator := senv -> env -> list event -> expr -> res.
 
 Definition FAULT_INDEX : nat := 0%nat.
+Definition FAULT_UNWRAP : nat := 1%nat.
 
 (* --------------------------------------------------------------- numerics *)
 Inductive nres := NOk (z : Z) | NTrap.
@@ -183,6 +208,9 @@ Fixpoint tsubst (ts : list ty) (t : ty) {struct t} : ty :=
   | TArr n u => TArr n (tsubst ts u)
   | TStruct id fs => TStruct id (map (tsubst ts) fs)
   | TVar n => match nth_error ts n with Some u => u | None => TVar n end
+  | TEnum id vs => TEnum id (map (tsubst ts) vs)
+  | TOpt u => TOpt (tsubst ts u)
+  | TErr e u => TErr (tsubst ts e) (tsubst ts u)
   | _ => t
   end.
 
@@ -291,6 +319,17 @@ Section WithEv.
                 match eval_stmts ((x, m, v) :: en1) out1 ss' tail with
                 | Res (_ :: en3) out2 c => Res en3 out2 c
                 | Res [] _ _ => RStuck
+                | r => r
+                end
+            | r => r
+            end
+        | EDefer d =>
+            (* the deferred expression runs when the rest of the block is left, normally or by
+               break / continue / return; not after a fault *)
+            match eval_stmts en out ss' tail with
+            | Res en1 out1 c =>
+                match ev en1 out1 d with
+                | Res en2 out2 (CVal _) => Res en2 out2 c
                 | r => r
                 end
             | r => r
@@ -558,6 +597,55 @@ Section Step.
         | Res _ _ (CVal _) => RStuck
         | r => r
         end
+    | EDefer _ => RStuck
+    | EInject _ k a =>
+        match ev en out a with
+        | Res en1 out1 (CVal v) => Res en1 out1 (CVal (VSum k v))
+        | r => r
+        end
+    | ESwitch _ a x arms dflt =>
+        match ev en out a with
+        | Res en1 out1 (CVal (VSum k v)) =>
+            match nth_error arms k with
+            | Some arm =>
+                match ev ((x, false, v) :: en1) out1 arm with
+                | Res (_ :: en3) out2 c => Res en3 out2 c
+                | Res [] _ _ => RStuck
+                | r => r
+                end
+            | None =>
+                match dflt with
+                | Some d => ev en1 out1 d
+                | None => RStuck
+                end
+            end
+        | Res _ _ (CVal _) => RStuck
+        | r => r
+        end
+    | EIsVariant a k =>
+        match ev en out a with
+        | Res en1 out1 (CVal (VSum k' _)) => Res en1 out1 (CVal (VBool (Nat.eqb k' k)))
+        | Res _ _ (CVal _) => RStuck
+        | r => r
+        end
+    | EUnwrap a k =>
+        match ev en out a with
+        | Res en1 out1 (CVal (VSum k' v)) =>
+            if Nat.eqb k' k then Res en1 out1 (CVal v) else RFault out1 FAULT_UNWRAP None
+        | Res _ _ (CVal _) => RStuck
+        | r => r
+        end
+    | ETry a =>
+        match ev en out a with
+        | Res en1 out1 (CVal (VSum k v)) =>
+            match k with
+            | O => Res en1 out1 (CRet (VSum 0 v))
+            | S O => Res en1 out1 (CVal v)
+            | _ => RStuck
+            end
+        | Res _ _ (CVal _) => RStuck
+        | r => r
+        end
     end.
 End Step.
 
@@ -616,6 +704,9 @@ Fixpoint closed (t : ty) : bool :=
   | TArr _ u => closed u
   | TStruct _ fs => forallb closed fs
   | TVar _ => false
+  | TEnum _ vs => forallb closed vs
+  | TOpt u => closed u
+  | TErr e u => closed e && closed u
   | _ => true
   end.
 
@@ -639,8 +730,17 @@ Section CheckLists.
         match s with
         | ELet x t m e =>
             if closed t && oty_is (chk G e) t then check_stmts ((x, t, m) :: G) ss' k else None
+        | EDefer d => match chk G d with Some _ => check_stmts G ss' k | None => None end
         | _ => match chk G s with Some _ => check_stmts G ss' k | None => None end
         end
+    end.
+
+  (* arms of a switch: arm i is checked with x bound to the payload of variant i *)
+  Fixpoint check_arms (G : vctx) (x : nat) (arms : list expr) (ts : list ty) (t : ty) : bool :=
+    match arms, ts with
+    | [], _ => true
+    | a :: arms', pt :: ts' => oty_is (chk ((x, pt, false) :: G) a) t && check_arms G x arms' ts' t
+    | _ :: _, [] => false
     end.
 End CheckLists.
 
@@ -763,6 +863,55 @@ Section Check.
         | Some (TInt _) => Some TVoid
         | Some TBool => Some TVoid
         | _ => None
+        end
+    | EDefer _ => None
+    | EInject t k a =>
+        match variants t with
+        | Some ts =>
+            match nth_error ts k with
+            | Some pt => if closed t && oty_is (check L ret G a) pt then Some t else None
+            | None => None
+            end
+        | None => None
+        end
+    | ESwitch t a x arms dflt =>
+        match check L ret G a with
+        | Some ta =>
+            match variants ta with
+            | Some ts =>
+                if closed t && check_arms (check L ret) G x arms ts t
+                   && match dflt with
+                      | Some d => oty_is (check L ret G d) t
+                      | None => Nat.leb (length ts) (length arms)
+                      end
+                then Some t else None
+            | None => None
+            end
+        | None => None
+        end
+    | EIsVariant a k =>
+        match check L ret G a with
+        | Some ta =>
+            match variants ta with
+            | Some ts => if Nat.ltb k (length ts) then Some TBool else None
+            | None => None
+            end
+        | None => None
+        end
+    | EUnwrap a k =>
+        match check L ret G a with
+        | Some ta =>
+            match variants ta with
+            | Some ts => nth_error ts k
+            | None => None
+            end
+        | None => None
+        end
+    | ETry a =>
+        match check L ret G a, ret with
+        | Some (TOpt t), TOpt _ => Some t
+        | Some (TErr e t), TErr e' _ => if ty_eqb e e' then Some t else None
+        | _, _ => None
         end
     end.
 
